@@ -758,11 +758,16 @@ spif_mbuff_trim(spif_mbuff_t self)
     spif_byteptr_t start, end;
 
     ASSERT_RVAL(!SPIF_MBUFF_ISNULL(self), FALSE);
+    if (!self->buff || !self->len) {
+        /* Empty; nothing to trim. */
+        return TRUE;
+    }
     start = self->buff;
     end = self->buff + self->len - 1;
     for (; isspace((spif_uchar_t) (*start)) && (start < end); start++);
     for (; isspace((spif_uchar_t) (*end)) && (start < end); end--);
-    if (start > end) {
+    if ((start > end) || isspace((spif_uchar_t) (*start))) {
+        /* Nothing but whitespace. */
         return spif_mbuff_done(self);
     }
     self->len = (spif_memidx_t) (end - start + 1);
